@@ -11,8 +11,9 @@ def parsePairs (sep : String) (l : List String) : List (String × String) :=
 
 def lookupS (l : List (String × String)) (k : String) : String := ((l.find? (·.1 == k)).map (·.2)).getD ""
 
-def concStep (args : List String) : String :=
+partial def concStep (args : List String) : String :=
   match args with
+  | "freshcredit" :: rest => concStep ("balances" :: rest)
   | "balances" :: rest =>
     -- no update is lost: every final balance is the sum of the acknowledged deltas (any schedule; C10 `no_lost_update`)
     match findArg "acked" rest, findArg "got" rest, findStr "total" rest with
